@@ -41,65 +41,88 @@ Definition err_eqb (a b : err) : bool :=
 (* a row of the script: its identity and whether rows.Scan can convert it *)
 Record row := { row_id : nat; row_ok : bool }.
 
+(* rs.lasterr: io.EOF or an error *)
+Inductive lerr := LEOF | LErr (e : err).
+
+(* database/sql.Rows (Go 1.23: lasterr, hitEOF, contextDone, closed, lastcols) *)
 Record rows := {
   r_pending : list row;          (* rows the driver has not delivered yet *)
   r_fail : option (nat * nat);   (* (k, e): the driver's Next fails with error e after k more rows *)
   r_close_err : option nat;      (* the driver's Rows.Close fails with this error *)
+  r_more : bool;                 (* the driver reports a further result set after this one
+                                    (driver.RowsNextResultSet): database/sql then does not close
+                                    the rows when this result set ends *)
   r_closed : bool;
-  r_lasterr : option err;        (* lasterr, io.EOF represented as None *)
-  r_hit_eof : bool;
+  r_lasterr : option lerr;
+  r_hiteof : bool;               (* hitEOF: Next closed the rows itself *)
+  r_ctxdone : bool;              (* contextDone: the query's context was cancelled while the rows were open *)
   r_current : option row;        (* lastcols *)
   r_driver_closes : nat          (* how often the driver's Rows.Close was called *)
 }.
 
 Definition rows_with (r : rows) (pending : list row) (fail : option (nat * nat)) (closed : bool)
-  (lasterr : option err) (eof : bool) (current : option row) (closes : nat) : rows :=
-  {| r_pending := pending; r_fail := fail; r_close_err := r_close_err r; r_closed := closed;
-     r_lasterr := lasterr; r_hit_eof := eof; r_current := current; r_driver_closes := closes |}.
+  (lasterr : option lerr) (eof : bool) (current : option row) (closes : nat) : rows :=
+  {| r_pending := pending; r_fail := fail; r_close_err := r_close_err r; r_more := r_more r;
+     r_closed := closed; r_lasterr := lasterr; r_hiteof := eof; r_ctxdone := r_ctxdone r;
+     r_current := current; r_driver_closes := closes |}.
+
+(* lasterrOrErrLocked *)
+Definition lasterr_or (r : rows) (e : option err) : option err :=
+  match r_lasterr r with Some (LErr x) => Some x | _ => e end.
 
 (* rs.close(err): first close wins; returns the driver's close error *)
 Definition rows_close_with (r : rows) (e : option err) : rows * option err :=
   if r_closed r then (r, None)
   else
-    let lasterr := match r_lasterr r with Some x => Some x | None => if r_hit_eof r then None else e end in
+    let lasterr1 := match r_lasterr r with None => option_map LErr e | x => x end in
     let cerr := option_map ErrDriver (r_close_err r) in
-    (* rs.lasterr = rs.lasterrOrErrLocked(err): the driver's close error is kept
-       when nothing else (but io.EOF) was recorded *)
-    let lasterr' := match lasterr with Some x => Some x | None => cerr end in
-    (rows_with r (r_pending r) (r_fail r) true lasterr' (r_hit_eof r) (r_current r) (S (r_driver_closes r)),
+    (* rs.lasterr = rs.lasterrOrErrLocked(err), err being the driver's close error *)
+    let lasterr2 := match lasterr1 with Some (LErr x) => Some (LErr x) | _ => option_map LErr cerr end in
+    (rows_with r (r_pending r) (r_fail r) true lasterr2 (r_hiteof r) (r_current r) (S (r_driver_closes r)),
      cerr).
 
 (* Rows.Close *)
 Definition rows_close (r : rows) : rows * option err := rows_close_with r None.
 
-(* Rows.Next: a driver error or io.EOF closes the rows *)
+Definition null_row : row := {| row_id := 0; row_ok := true |}.
+
+Definition set_hiteof (r : rows) : rows :=
+  rows_with r (r_pending r) (r_fail r) (r_closed r) (r_lasterr r) true (r_current r) (r_driver_closes r).
+
+(* Rows.Next *)
 Definition rows_next (r : rows) : rows * bool :=
-  if r_closed r then (r, false)
+  if r_ctxdone r then (r, false)
+  else if r_closed r then (r, false)
   else
+    (* lastcols is allocated before the driver is asked *)
+    let cur0 := match r_current r with Some x => Some x | None => Some null_row end in
     match r_fail r with
     | Some (O, e) =>
-        let r1 := rows_with r (r_pending r) None false (Some (ErrDriver e)) false (r_current r)
+        (* a driver error: the rows are closed *)
+        let r1 := rows_with r (r_pending r) None false (Some (LErr (ErrDriver e))) (r_hiteof r) cur0
                     (r_driver_closes r) in
-        (fst (rows_close r1), false)
+        (set_hiteof (fst (rows_close r1)), false)
     | _ =>
         let fail' := match r_fail r with Some (S k, e) => Some (k, e) | x => x end in
         match r_pending r with
         | [] =>
-            let r1 := rows_with r [] fail' false (r_lasterr r) true (r_current r) (r_driver_closes r) in
-            (fst (rows_close r1), false)
+            (* io.EOF: the rows are closed unless the driver has another result set *)
+            let r1 := rows_with r [] (r_fail r) false (Some LEOF) (r_hiteof r) cur0 (r_driver_closes r) in
+            if r_more r then (r1, false) else (set_hiteof (fst (rows_close r1)), false)
         | x :: rest =>
-            (rows_with r rest fail' false (r_lasterr r) false (Some x) (r_driver_closes r), true)
+            (rows_with r rest fail' false None (r_hiteof r) (Some x) (r_driver_closes r), true)
         end
     end.
 
 (* Rows.Err *)
-Definition rows_err (r : rows) : option err := r_lasterr r.
+Definition rows_err (r : rows) : option err :=
+  if negb (r_hiteof r) && r_ctxdone r then Some ErrCtx else lasterr_or r None.
 
 (* Rows.Scan: result only (what is stored is in Scan.v) *)
 Definition rows_scan (r : rows) : option err :=
   match r_lasterr r with
-  | Some e => Some e
-  | None =>
+  | Some (LErr e) => Some e
+  | _ =>
       if r_closed r then Some ErrRowsClosed
       else
         match r_current r with
@@ -108,13 +131,20 @@ Definition rows_scan (r : rows) : option err :=
         end
   end.
 
-(* the context of the query is cancelled: database/sql closes the rows with
-   the context's error (asynchronously; here an atomic step) *)
-Definition rows_cancel (r : rows) : rows := fst (rows_close_with r (Some ErrCtx)).
+(* the context of the query is cancelled while the rows are open: database/sql
+   records it and closes the rows with the context's error (asynchronously;
+   here an atomic step).  Nothing happens once the rows are closed. *)
+Definition rows_cancel (r : rows) : rows :=
+  if r_closed r then r
+  else
+    let r1 := {| r_pending := r_pending r; r_fail := r_fail r; r_close_err := r_close_err r; r_more := r_more r;
+                 r_closed := false; r_lasterr := r_lasterr r; r_hiteof := r_hiteof r; r_ctxdone := true;
+                 r_current := r_current r; r_driver_closes := r_driver_closes r |} in
+    fst (rows_close_with r1 (Some ErrCtx)).
 
 (* Rows.Columns fails once the rows are closed *)
 Definition rows_columns (r : rows) : option err :=
-  if r_closed r then Some (match r_lasterr r with Some e => e | None => ErrRowsClosed end) else None.
+  if r_closed r then lasterr_or r (Some ErrRowsClosed) else None.
 
 (* ------------------------------------------------ sqlair: Iterator -- *)
 
